@@ -87,3 +87,45 @@ spec fn s_last(a: Seq<RegexNode>, i: int) -> ISet<u32>
 }
 
 } // verus!
+verus! {
+/// union of first() over the first n children (Or)
+spec fn or_first_upto(a: Seq<RegexNode>, ch: Seq<RegexNodeId>, i: int, n: int) -> ISet<u32> {
+    ISet::new(|p: u32| exists|k: int| 0 <= k < n && k < ch.len() && (#[trigger] ch[k]).0 < i && s_first(a, ch[k].0 as int).contains(p))
+}
+/// first() of the first n children of a Cat, each counted only if everything before it is nullable
+spec fn cat_first_upto(a: Seq<RegexNode>, ch: Seq<RegexNodeId>, i: int, n: int) -> ISet<u32> {
+    ISet::new(|p: u32| exists|k: int| 0 <= k < n && k < ch.len() && (#[trigger] ch[k]).0 < i && prefix_nullable(a, ch, k) && s_first(a, ch[k].0 as int).contains(p))
+}
+spec fn or_last_upto(a: Seq<RegexNode>, ch: Seq<RegexNodeId>, i: int, n: int) -> ISet<u32> {
+    ISet::new(|p: u32| exists|k: int| 0 <= k < n && k < ch.len() && (#[trigger] ch[k]).0 < i && s_last(a, ch[k].0 as int).contains(p))
+}
+/// last() of the children with index >= n of a Cat, each counted only if everything after it is nullable
+spec fn cat_last_from(a: Seq<RegexNode>, ch: Seq<RegexNodeId>, i: int, n: int) -> ISet<u32> {
+    ISet::new(|p: u32| exists|k: int| n <= k < ch.len() && 0 <= k && (#[trigger] ch[k]).0 < i && suffix_nullable(a, ch, k) && s_last(a, ch[k].0 as int).contains(p))
+}
+
+proof fn lemma_first_or(a: Seq<RegexNode>, i: int, ch: Vec<RegexNodeId>)
+    requires 0 <= i < a.len(), a[i] == RegexNode::Or(ch)
+    ensures s_first(a, i) == or_first_upto(a, ch@, i, ch@.len() as int)
+{
+    assert(s_first(a, i) =~= or_first_upto(a, ch@, i, ch@.len() as int));
+}
+proof fn lemma_first_cat(a: Seq<RegexNode>, i: int, ch: Vec<RegexNodeId>)
+    requires 0 <= i < a.len(), a[i] == RegexNode::Cat(ch)
+    ensures s_first(a, i) == cat_first_upto(a, ch@, i, ch@.len() as int)
+{
+    assert(s_first(a, i) =~= cat_first_upto(a, ch@, i, ch@.len() as int));
+}
+proof fn lemma_last_or(a: Seq<RegexNode>, i: int, ch: Vec<RegexNodeId>)
+    requires 0 <= i < a.len(), a[i] == RegexNode::Or(ch)
+    ensures s_last(a, i) == or_last_upto(a, ch@, i, ch@.len() as int)
+{
+    assert(s_last(a, i) =~= or_last_upto(a, ch@, i, ch@.len() as int));
+}
+proof fn lemma_last_cat(a: Seq<RegexNode>, i: int, ch: Vec<RegexNodeId>)
+    requires 0 <= i < a.len(), a[i] == RegexNode::Cat(ch)
+    ensures s_last(a, i) == cat_last_from(a, ch@, i, 0)
+{
+    assert(s_last(a, i) =~= cat_last_from(a, ch@, i, 0));
+}
+} // verus!
